@@ -208,6 +208,10 @@ def store_getitem(prefix='C11'):
     outcomes = set()
     for p in paths:
         if p.outcome[0] == 'unsupported':
+            rep = native_store()
+            if rep.get('reproduced'):
+                return [Ob(id=f'{prefix}/InputStore.__getitem__/subset', status=oblig.REFUTED, backend='native', function=fid, clause='NOT: the four outcomes of InputStore.__getitem__ on concrete stores (declared / supplied / valid, [DEFAULT], sibling instance)',
+                           solver_output=f'outside the subset ({p.outcome[1]}); refuted by the native concrete cases', witness={k: v for k, v in rep.items() if k != 'reproduced'}, replay=rep)]
             return [Ob(id=f'{prefix}/InputStore.__getitem__/subset', status=oblig.UNDECIDED, function=fid, clause='NOT: inside the verified subset', solver_output=p.outcome[1])]
         it = p.interp
         key, specs, c = it.ghost['key'], it.ghost['specs'], it.ghost['cfg0']
@@ -363,11 +367,36 @@ def native_default_section():
             'reported_as_needed_but_not_supplied': sorted(unmet)}
 
 
+def native_sibling():
+    """An input of an instance that is not declared (yet) is reported as a missing specification, even when another instance of
+    the same form declares an input of that name - it is never read from the other instance."""
+    import configparser
+    from habutax import inputs
+
+    class F(object):
+        def __init__(self, n):
+            self.n = n
+
+        def name(self):
+            return self.n
+    cfg = configparser.ConfigParser()
+    cfg.read_string('[f:0]\nx = 5\n[f:1]\nx = 9\n')
+    i0 = inputs.IntegerInput('x')
+    i0.__form_init__(F('f:0'))
+    st = inputs.InputStore(cfg, {'f:0.x': i0})
+    try:
+        got = {'returned': repr(st['f:1.x'])}
+    except BaseException as ex:
+        got = {'raised': type(ex).__name__}
+    return {'reproduced': got != {'raised': 'MissingInputSpecification'}, 'read_of_undeclared_f:1.x': got}
+
+
 def native_store():
     from . import c11
     r = c11.native_store()
     d = native_default_section()
-    return {'reproduced': bool(r.get('reproduced') or d.get('reproduced')), 'runs': r.get('runs'), 'default_section': d}
+    sb = native_sibling()
+    return {'reproduced': bool(r.get('reproduced') or d.get('reproduced') or sb.get('reproduced')), 'runs': r.get('runs'), 'default_section': d, 'sibling_instance': sb}
 
 
 if __name__ == '__main__':
